@@ -69,6 +69,21 @@ def check_config(part, world, k, colocate, work, frac, tag):
             return
         insts.append(a)
         calls.append(rec)
+    # another assignment with the same layer names but other costs and
+    # another gradient-worker count, built afterwards in the same process
+    # (e.g. a second model): the first ones must not change
+    k2 = [d for d in divisors(world) if d != k]
+    if k2 and work:
+        mx = max(max(f.values()) for f in work.values())
+        decoy = {l: {f: mx + 1.0 - c for f, c in fs.items()}
+                 for l, fs in work.items()}
+        try:
+            KAISAAssignment(decoy, local_rank=world - 1, world_size=world,
+                            grad_worker_fraction=k2[-1] / world,
+                            group_func=lambda ranks: tuple(sorted(ranks)),
+                            colocate_factors=not colocate)
+        except Exception:  # noqa  (its own validity is checked elsewhere)
+            pass
     part.count('evaluations', world)
     cols, rows = ref_grid(world, k)
     # same group_func sequence everywhere
